@@ -1040,6 +1040,10 @@ class Piece:
                     kind_ = "char" if lit.text.startswith("'") and lit.kind != "lifetime" else "str" if lit.text.startswith('"') else None
                     if kind_:
                         self._add(toks[k + 1].start, toks[k + 1].end, f"{toks[k + 1].text}_{kind_}", "T-STR", order=-99)
+                # `.extend(X)` takes anything iterable: for a Vec given a Vec, a slice or a reference to a Vec the call goes to the
+                # method of the same meaning (trait VecExtendX, exact spec: the elements are appended in order); anything else does not resolve
+                if toks[k].text == "." and toks[k + 1].text == "extend" and toks[k + 2].text == "(":
+                    self._add(toks[k + 1].start, toks[k + 1].end, "extend_x", "T-STR", order=-99)
                 if toks[k].text == "." and toks[k + 1].text == "as_deref" and toks[k + 2].text == "(" and toks[k + 3].text == ")":
                     self._add(toks[k + 1].start, toks[k + 1].end, "as_deref_str", "T-STR", order=-99)
                 # `.replace(P, R)`: a character, a string literal or an array of characters as the pattern
@@ -1409,6 +1413,10 @@ class Piece:
             if os.environ.get("VERIF_LIST_ANCHORS"):
                 print(f"ANCHORLIST\t{self.unit.name}\t{fn.name}\t{_ai}\t{anchor[0]}\t{str(anchor[1])[:40]}\t{anchor[3].strip()[:30]!r}")
             where, snippet, occ, text = anchor[:4]
+            # ("opt:KIND", ..): a proof step that belongs to one statement; when the statement is gone the step is left out (what the
+            # function must achieve is stated in its contract, which is checked either way)
+            optional_ = where.startswith("opt:")
+            where = where[4:] if optional_ else where
             for ph_, repl_, _x in counted_sub.values():
                 if isinstance(text, str):
                     text = text.replace("$" + ph_, repl_)
@@ -1501,6 +1509,8 @@ class Piece:
                 where = where[:-3]
                 ms_ = list(re.finditer(snippet, ftext, re.S))
                 if len(ms_) < occ:
+                    if optional_:
+                        continue
                     raise Undecided(f"{fn.name}: anchor /{snippet}/ #{occ} not found")
                 m_ = ms_[occ - 1]
                 pos = m_.start()
@@ -1512,7 +1522,11 @@ class Piece:
                 for _ in range(occ):
                     pos = ftext.find(snippet, pos + 1)
                     if pos < 0:
-                        raise Undecided(f"{fn.name}: anchor `{snippet}` #{occ} not found")
+                        break
+                if pos < 0:
+                    if optional_:
+                        continue
+                    raise Undecided(f"{fn.name}: anchor `{snippet}` #{occ} not found")
             if where in ("before", "after"):
                 p = fstart + pos + (len(snippet) if where == "after" else 0)
                 if os.environ.get("VERIF_ANCHOR_DEBUG") and where == "before" and text.strip().endswith(":"):
@@ -1782,6 +1796,21 @@ class Piece:
             self._add(toks[it.k1 - 2].start, toks[it.k1 - 2].end,
                       f"ensures {name}@ == seq![{', '.join(str(b) + 'u8' for b in out)}] {{", "T-BYTES")
             self._add(toks[it.k1].start, toks[it.k1].end, "}", "T-BYTES")
+        if it.kind == "const" and "time" in self.unit.preludes:
+            # T-CONST-STD: `const NAME: Duration = Duration::from_secs(N);` (from_millis / from_micros / from_nanos; N a literal or a
+            # constant): Verus constants cannot call an executable function; an `exec const` can, and its contract states the length
+            toks = self.sf.toks
+            txt_ = self.sf.text[toks[it.k0].start:toks[it.k1].end]
+            m_ = re.search(r"const\s+(\w+)\s*:\s*(?:std::time::)?Duration\s*=\s*(?:std::time::)?Duration::from_(secs|millis|micros|nanos)\(\s*([A-Za-z_0-9:]+)\s*\)\s*;\s*$", txt_)
+            if m_:
+                unit_ = {"secs": 1_000_000_000, "millis": 1_000_000, "micros": 1_000, "nanos": 1}[m_.group(2)]
+                kc = it.k0
+                while toks[kc].text != "const":
+                    kc += 1
+                ke = next(k for k in range(kc, it.k1) if toks[k].text == "=")
+                self._add(toks[kc].start, toks[kc].start, "exec ", "T-CONST-STD")
+                self._add(toks[ke].start, toks[ke].end, f"ensures crate::dur({m_.group(1)}) == ({m_.group(3)}) as nat * {unit_} {{", "T-CONST-STD")
+                self._add(toks[it.k1].start, toks[it.k1].end, "}", "T-CONST-STD")
         if it.kind == "const":
             # the elided lifetime of a const reference is 'static; Verus wants it written out
             toks = self.sf.toks
@@ -1972,6 +2001,16 @@ class Unit:
     def take(self, relpath, spec, module, mode="data", fns=None, props=None, keep_derives=()):
         self.module(module)
         p = Piece(self, relpath, spec, module, mode, fns, props, keep_derives)
+        if mode == "verify" and fns:
+            # a function serves every property one of its clauses is labelled for: an unlabelled failure in it (a proof step, a
+            # safety obligation) then concerns each of them
+            txt_ = ""
+            for fs in fns.values():
+                txt_ += "\n".join([fs.sig or "", fs.body_start or ""] + [str(x) for x in (fs.loops or {}).values()]
+                                  + [str(a_[3]) for a_ in (fs.at or []) if len(a_) > 3])
+            extra_ = sorted({m_.group(1) for m_ in re.finditer(r"\b(C\d\d)\.\w", " ".join(re.findall(r"//@([^\n]*)", txt_)))} - set(p.props or []))
+            if extra_:
+                p.props = list(p.props or []) + extra_
         self.modules[module]["parts"].append(("piece", p))
         self.pieces.append(p)
         # register ghost call patterns
@@ -2200,6 +2239,17 @@ class Unit:
                             self.auto_log.append({"rule": "T-STATIC", "file": relpath, "item": name, "from": ms.group(0), "to": c_})
         # inside verus! a reference type in a const needs its lifetime spelled out (as for the constants a unit takes by name)
         consts = [re.sub(r":\s*&\s*(?!')", ": &'static ", c_, count=1) for c_ in consts]
+        if "time" in self.preludes:
+            # T-CONST-STD: a Duration constant built by Duration::from_secs(N) and the like becomes an `exec const` whose contract states its length
+            def dur_const(c_):
+                m_ = re.fullmatch(r"((?:pub(?:\([^)]*\))?\s+)?)const\s+(\w+)\s*:\s*((?:std::time::)?Duration)\s*=\s*((?:std::time::)?Duration::from_(secs|millis|micros|nanos)\(\s*([A-Za-z_0-9:]+)\s*\))\s*;", c_.strip())
+                if not m_:
+                    return c_
+                unit_ = {"secs": 1_000_000_000, "millis": 1_000_000, "micros": 1_000, "nanos": 1}[m_.group(5)]
+                new = f"{m_.group(1)}exec const {m_.group(2)}: {m_.group(3)} ensures crate::dur({m_.group(2)}) == ({m_.group(6)}) as nat * {unit_} {{ {m_.group(4)} }}"
+                self.auto_log.append({"rule": "T-CONST-STD", "file": "", "item": m_.group(2), "from": c_, "to": new})
+                return new
+            consts = [dur_const(c_) for c_ in consts]
         return uses, consts
 
     def sf_text_of(self, p):
